@@ -440,3 +440,96 @@ Proof.
     rewrite (IH ft) by (apply H; left; reflexivity). cbn. apply IHf. intros x Hin. apply H. right. exact Hin.
   - apply wt_strip. cbn [strip_named]. apply wt_strip. apply IH. exact H.
 Qed.
+
+(* ====================================================================== *)
+(* Part 4.  Key sorting: a permutation; sorting a sorted list is the identity *)
+(* ====================================================================== *)
+
+Lemma insert_key_perm {X} lt (x : bytes * X) l : Permutation (insert_key lt x l) (x :: l).
+Proof.
+  induction l as [|y r IH]; cbn; [apply Permutation_refl|].
+  destruct (lt (fst y) (fst x)); [|apply Permutation_refl].
+  eapply perm_trans; [apply perm_skip; exact IH | apply perm_swap].
+Qed.
+
+Lemma sort_keys_perm {X} lt (l : list (bytes * X)) : Permutation (sort_keys lt l) l.
+Proof.
+  induction l as [|x r IH]; cbn; [apply perm_nil|].
+  eapply perm_trans; [apply insert_key_perm | apply perm_skip; exact IH].
+Qed.
+
+(* adjacent elements are in order *)
+Fixpoint ksorted {X} (lt : bytes -> bytes -> bool) (l : list (bytes * X)) : Prop :=
+  match l with
+  | [] => True
+  | x :: r => match r with [] => True | y :: _ => lt (fst y) (fst x) = false end /\ ksorted lt r
+  end.
+
+Definition asym (lt : bytes -> bytes -> bool) : Prop := forall a b, lt a b = true -> lt b a = false.
+
+Lemma insert_key_sorted {X} lt (x : bytes * X) l : asym lt -> ksorted lt l -> ksorted lt (insert_key lt x l).
+Proof.
+  intros Ha. induction l as [|y r IH]; intros Hs; cbn; [auto|].
+  destruct (lt (fst y) (fst x)) eqn:Hyx.
+  - cbn in Hs. destruct Hs as [Hh Ht]. specialize (IH Ht). cbn. split; [|exact IH].
+    destruct r as [|z r']; cbn.
+    + apply Ha. exact Hyx.
+    + destruct (lt (fst z) (fst x)); [exact Hh | apply Ha; exact Hyx].
+  - cbn. split; [exact Hyx | exact Hs].
+Qed.
+
+Lemma sort_keys_sorted {X} lt (l : list (bytes * X)) : asym lt -> ksorted lt (sort_keys lt l).
+Proof.
+  intros Ha. induction l as [|x r IH]; cbn; [exact I|]. apply insert_key_sorted; assumption.
+Qed.
+
+Lemma sort_keys_id {X} lt (l : list (bytes * X)) : ksorted lt l -> sort_keys lt l = l.
+Proof.
+  induction l as [|x r IH]; intros Hs; [reflexivity|]. cbn in Hs. destruct Hs as [Hh Ht].
+  cbn. rewrite (IH Ht). destruct r as [|y r']; [reflexivity|]. cbn. rewrite Hh. reflexivity.
+Qed.
+
+Lemma ksorted_keys {X Y} lt (l : list (bytes * X)) (l' : list (bytes * Y)) :
+  map fst l = map fst l' -> ksorted lt l -> ksorted lt l'.
+Proof.
+  revert l'. induction l as [|x r IH]; intros [|x' r'] Hm Hs; try discriminate; [exact I|].
+  cbn in Hm. inversion Hm as [[Hx Hr]]. cbn in Hs. destruct Hs as [Hh Ht]. cbn. split.
+  - destruct r as [|y r0]; destruct r' as [|y' r0']; try discriminate; [exact I|].
+    cbn in Hr. inversion Hr as [[Hy _]]. rewrite <- Hx, <- Hy. exact Hh.
+  - apply IH; assumption.
+Qed.
+
+Lemma bytes_ltb_asym : asym bytes_ltb.
+Proof.
+  intros a. induction a as [|x a IH]; intros [|y b] H; cbn in *; try discriminate; try reflexivity.
+  destruct (x <? y) eqn:Hxy.
+  - destruct (y <? x) eqn:Hyx; [lia|reflexivity].
+  - destruct (y <? x) eqn:Hyx; [discriminate|]. apply IH. exact H.
+Qed.
+
+Lemma rfc7049_ltb_asym : asym rfc7049_ltb.
+Proof.
+  intros a b. unfold rfc7049_ltb.
+  destruct (Nat.ltb (length a) (length b)) eqn:H1; destruct (Nat.ltb (length b) (length a)) eqn:H2;
+    intros H; try reflexivity; try discriminate; try lia.
+  apply bytes_ltb_asym. exact H.
+Qed.
+
+Lemma key_ltb_asym mode : asym (key_ltb mode).
+Proof. unfold key_ltb. destruct (mode =? 2); [apply rfc7049_ltb_asym | apply bytes_ltb_asym]. Qed.
+
+(* ---------- small list facts ---------------------------------------------------- *)
+
+Lemma forallb_Forall {X} (p : X -> bool) l : forallb p l = true <-> Forall (fun x => p x = true) l.
+Proof.
+  induction l as [|x r IH]; cbn; split; intros H; auto.
+  - apply andb_true_iff in H. destruct H. constructor; [assumption | apply IH; assumption].
+  - inversion H; subst. apply andb_true_iff. split; [assumption | apply IH; assumption].
+Qed.
+
+Lemma Forall2_length' {X Y} (R : X -> Y -> Prop) l l' : Forall2 R l l' -> length l = length l'.
+Proof. induction 1; cbn; congruence. Qed.
+
+Lemma Forall2_imp {X Y} (R R' : X -> Y -> Prop) l l' :
+  (forall x y, R x y -> R' x y) -> Forall2 R l l' -> Forall2 R' l l'.
+Proof. intros H. induction 1; constructor; auto. Qed.
